@@ -159,6 +159,20 @@ pub enum Repr {
     FromTable,
     /// non-contiguous encoder/decoder pair built from (identity symbols, same table)
     NonContig,
+    /// lookup decoder built directly with the constructor of the same name (float tables:
+    /// `from_floating_point_probabilities_{fast,perfect}`; fixed tables:
+    /// `from_nonzero_fixed_point_probabilities`); decode only, Prob u8/u16
+    LookupCtor,
+    /// `to_lookup_decoder_model()` converted back: encodes through `as_contiguous_categorical()`,
+    /// decodes through `into_contiguous_categorical()`
+    LookupBack,
+    /// non-contiguous encoder / decoder built with the same-named float constructor and
+    /// identity symbols (float tables only)
+    NonContigCtor,
+    /// non-contiguous lookup decoder built with the same-named constructor and identity symbols
+    NonContigLookupCtor,
+    /// the same, converted back with `into_non_contiguous_categorical()`
+    NonContigLookupBack,
 }
 
 #[derive(Clone, Debug, Serialize, Deserialize, PartialEq)]
@@ -412,6 +426,106 @@ macro_rules! contiguous_lookup {
     };
 }
 
+/// run a float constructor with the table as f32 or f64, fast or perfect
+macro_rules! float_ctor {
+    ($probs:expr, $f32:expr, $perfect:expr, |$pr:ident| fast: $fast:expr, perfect: $perf:expr) => {
+        if $f32 {
+            let v: Vec<f32> = $probs.iter().map(|&x| x as f32).collect();
+            let $pr = &v[..];
+            if $perfect { $perf } else { $fast }
+        } else {
+            let $pr = &$probs[..];
+            if $perfect { $perf } else { $fast }
+        }
+    };
+}
+
+/// representations of a float table that are built by their own same-named constructors
+macro_rules! cat_ctor_reprs {
+    (yes, $probs:expr, $f32:expr, $perfect:expr, $repr:expr, $Prob:ty, $P:ident) => {{
+        type L<const P: usize> = ContiguousLookupDecoderModel<$Prob, Vec<$Prob>, Box<[$Prob]>, P>;
+        type NL<const P: usize> = NonContiguousLookupDecoderModel<usize, $Prob, Vec<($Prob, usize)>, Box<[$Prob]>, P>;
+        let n = $probs.len();
+        match $repr {
+            Repr::LookupCtor if $P <= 16 => float_ctor!($probs, $f32, $perfect, |pr|
+                fast: L::<$P>::from_floating_point_probabilities_fast(pr, None),
+                perfect: L::<$P>::from_floating_point_probabilities_perfect(pr))
+                .ok().map(|m| dec_only::<_, usize, $Prob, $P>(m)),
+            Repr::NonContigLookupCtor if $P <= 16 => float_ctor!($probs, $f32, $perfect, |pr|
+                fast: NL::<$P>::from_symbols_and_floating_point_probabilities_fast(0..n, pr, None),
+                perfect: NL::<$P>::from_symbols_and_floating_point_probabilities_perfect(0..n, pr))
+                .ok().map(|m| dec_only::<_, usize, $Prob, $P>(m)),
+            Repr::NonContigLookupBack if $P <= 16 => float_ctor!($probs, $f32, $perfect, |pr|
+                fast: NL::<$P>::from_symbols_and_floating_point_probabilities_fast(0..n, pr, None),
+                perfect: NL::<$P>::from_symbols_and_floating_point_probabilities_perfect(0..n, pr))
+                .ok().map(|m| dec_only::<_, usize, $Prob, $P>(m.into_non_contiguous_categorical())),
+            r => cat_ctor_reprs!(no, $probs, $f32, $perfect, r, $Prob, $P),
+        }
+    }};
+    (no, $probs:expr, $f32:expr, $perfect:expr, $repr:expr, $Prob:ty, $P:ident) => {{
+        type NE<const P: usize> = NonContiguousCategoricalEncoderModel<usize, $Prob, P>;
+        type ND<const P: usize> = NonContiguousCategoricalDecoderModel<usize, $Prob, Vec<($Prob, usize)>, P>;
+        let n = $probs.len();
+        match $repr {
+            Repr::NonContigCtor => {
+                let e = float_ctor!($probs, $f32, $perfect, |pr|
+                    fast: NE::<$P>::from_symbols_and_floating_point_probabilities_fast(0..n, pr, None),
+                    perfect: NE::<$P>::from_symbols_and_floating_point_probabilities_perfect(0..n, pr));
+                let d = float_ctor!($probs, $f32, $perfect, |pr|
+                    fast: ND::<$P>::from_symbols_and_floating_point_probabilities_fast(0..n, pr, None),
+                    perfect: ND::<$P>::from_symbols_and_floating_point_probabilities_perfect(0..n, pr));
+                match (e, d) {
+                    (Ok(e), Ok(d)) => Some(FnModel {
+                        enc: Some(enc_of::<_, usize, $Prob, $P>(Rc::new(e))),
+                        dec: Some(dec_of::<_, usize, $Prob, $P>(Rc::new(d))),
+                    }),
+                    _ => None,
+                }
+            }
+            _ => None,
+        }
+    }};
+}
+
+/// the same for a fixed-point table
+macro_rules! fixed_ctor_reprs {
+    (yes, $pr:expr, $repr:expr, $Prob:ty, $P:ident) => {{
+        type L<const P: usize> = ContiguousLookupDecoderModel<$Prob, Vec<$Prob>, Box<[$Prob]>, P>;
+        type NL<const P: usize> = NonContiguousLookupDecoderModel<usize, $Prob, Vec<($Prob, usize)>, Box<[$Prob]>, P>;
+        let n = $pr.len();
+        match $repr {
+            Repr::LookupCtor if $P <= 16 => L::<$P>::from_nonzero_fixed_point_probabilities($pr.iter(), false)
+                .ok().map(|m| dec_only::<_, usize, $Prob, $P>(m)),
+            Repr::NonContigLookupCtor if $P <= 16 => NL::<$P>::from_symbols_and_nonzero_fixed_point_probabilities(0..n, $pr.iter(), false)
+                .ok().map(|m| dec_only::<_, usize, $Prob, $P>(m)),
+            Repr::NonContigLookupBack if $P <= 16 => NL::<$P>::from_symbols_and_nonzero_fixed_point_probabilities(0..n, $pr.iter(), false)
+                .ok().map(|m| dec_only::<_, usize, $Prob, $P>(m.into_non_contiguous_categorical())),
+            _ => None,
+        }
+    }};
+    (no, $pr:expr, $repr:expr, $Prob:ty, $P:ident) => {
+        None
+    };
+}
+
+macro_rules! contiguous_lookup_back {
+    (yes, $m:ident, $Prob:ty, $P:ident) => {
+        if $P <= 16 {
+            let l = Rc::new($m.to_lookup_decoder_model());
+            let owned = $m.to_lookup_decoder_model().into_contiguous_categorical();
+            Some(FnModel {
+                enc: Some(Box::new(move |s| usize::from_i64(s).and_then(|s| l.as_contiguous_categorical().left_cumulative_and_probability(s)))),
+                dec: Some(dec_of::<_, usize, $Prob, $P>(Rc::new(owned))),
+            })
+        } else {
+            None
+        }
+    };
+    (no, $m:ident, $Prob:ty, $P:ident) => {
+        None
+    };
+}
+
 macro_rules! lib_builder {
     ($name:ident, $Prob:ty, lookup = $lookup:tt) => {
         /// Build a library model; `None` if the constructor refuses or the representation
@@ -434,6 +548,9 @@ macro_rules! lib_builder {
                     }
                 }
                 Kind::Cat { probs, f32: use_f32, perfect } => {
+                    if matches!(repr, Repr::LookupCtor | Repr::NonContigCtor | Repr::NonContigLookupCtor | Repr::NonContigLookupBack) {
+                        return cat_ctor_reprs!($lookup, probs, *use_f32, *perfect, repr, $Prob, P);
+                    }
                     if repr == Repr::Lazy {
                         if *perfect {
                             return None;
@@ -466,6 +583,9 @@ macro_rules! lib_builder {
                 }
                 Kind::Fixed { probs } => {
                     let pr: Vec<$Prob> = probs.iter().map(|&x| from_u64::<$Prob>(x)).collect();
+                    if matches!(repr, Repr::LookupCtor | Repr::NonContigLookupCtor | Repr::NonContigLookupBack) {
+                        return fixed_ctor_reprs!($lookup, pr, repr, $Prob, P);
+                    }
                     let m = Cat::<P>::from_nonzero_fixed_point_probabilities(pr.iter(), false).ok()?;
                     contiguous_reprs::<P>(m, repr)
                 }
@@ -549,6 +669,7 @@ macro_rules! lib_builder {
                         })
                     }
                     Repr::Lookup => contiguous_lookup!($lookup, m, $Prob, P),
+                    Repr::LookupBack => contiguous_lookup_back!($lookup, m, $Prob, P),
                     Repr::FromTable => {
                         let probs: Vec<$Prob> = m.symbol_table().map(|t| t.2.get()).collect();
                         ContiguousCategoricalEntropyModel::<$Prob, Vec<$Prob>, P>::from_nonzero_fixed_point_probabilities(probs.iter(), false)
